@@ -1,6 +1,8 @@
 package eng
 
 import (
+	"fmt"
+
 	"verifharness/internal/hx"
 )
 
@@ -319,4 +321,130 @@ func RunRandom(r *hx.Rand, p Profile) (*Exec, *Monitor) {
 		}
 	}
 	return e, m
+}
+
+// RunTwin replays a serially generated history on a graph driven by ParallelStabilize and
+// compares the two executions after every operation (the C04 oracle, evaluated on the
+// implementation): observer values, values of top-level nodes, node count, number of
+// registered nodes, the set of top-level nodes reported as updated, and the result class.
+func RunTwin(serial *Exec, parallelism int) (par *Exec, mon *Monitor, findings []Finding) {
+	par = NewExecPar(serial.MaxHeight, parallelism)
+	mon = NewMonitor(par)
+	for i, op := range serial.Ops {
+		if op.K == "Stabilize" {
+			op.K = "ParStabilize"
+		}
+		mon.BeforeOp(op)
+		s := par.Do(op)
+		mon.AfterOp(op, s)
+		ref := serial.Samples[i]
+		differ := func(what string) {
+			findings = append(findings, Finding{Prop: "C04", Kind: "parallel-differs:" + what, Op: i + 1,
+				What: fmt.Sprintf("after %s (operation %d) ParallelStabilize(parallelism %d) and Stabilize disagree on %s", op.String(), i, parallelism, what)})
+		}
+		if s.Crashed != ref.Crashed || s.Class != ref.Class {
+			differ(fmt.Sprintf("the result (%s vs %s)", s.Class, ref.Class))
+			break
+		}
+		if s.Crashed {
+			break
+		}
+		if fmt.Sprint(s.ObsVals) != fmt.Sprint(ref.ObsVals) {
+			differ("observer values")
+		}
+		if s.NumNodes != ref.NumNodes || len(s.Reg) != len(ref.Reg) {
+			differ("the number of registered nodes")
+		}
+		top := func(e *Exec, sm Sample) (vals [][2]int, upd []int) {
+			inGraph := map[int]bool{}
+			for _, id := range sm.Reg {
+				inGraph[id] = true
+			}
+			for _, v := range sm.Vals {
+				// only nodes that are part of the graph: what a node that nothing can reach
+				// holds is not observable (serially it may have been recomputed just before a
+				// bind dropped it, in parallel the bind goes first)
+				if r := e.Nodes[v[0]]; r != nil && r.Scope == -1 && inGraph[v[0]] {
+					vals = append(vals, v)
+				}
+			}
+			for _, ev := range sm.Raw {
+				if ev.K == "EvUpd" && e.Nodes[ev.N] != nil && e.Nodes[ev.N].Scope == -1 {
+					upd = append(upd, ev.N)
+				}
+			}
+			sortInts(upd)
+			return
+		}
+		v1, u1 := top(par, s)
+		v2, u2 := top(serial, ref)
+		if fmt.Sprint(v1) != fmt.Sprint(v2) {
+			differ("node values")
+		}
+		if fmt.Sprint(u1) != fmt.Sprint(u2) {
+			differ("the set of nodes reported as updated")
+		}
+		if len(s.Heap) != len(ref.Heap) {
+			differ("the number of queued nodes")
+		}
+		if len(findings) > 0 {
+			break
+		}
+	}
+	findings = append(findings, mon.Findings...)
+	return
+}
+
+// MemoKeyHistories enumerates key sequences through one BindMemoized (property C09).
+func MemoKeyHistories(maxLen int, r *hx.Rand) [][]Op {
+	prefix := []Op{
+		{K: "NewVar", V: 0},                       // n0: the key
+		{K: "NewVar", V: 3},                       // n1: an outer input
+		{K: "NewMap", F1: Fn1{2, 1}, A: 1},        // n2: derived from the outer input
+	}
+	cases := []*Texp{
+		{K: "TRet", Z: 7},
+		{K: "TMap", F1: Fn1{3, 2}, E1: &Texp{K: "TOuter", N: 2}},
+		{K: "TBind", Cases: []*Texp{{K: "TRet", Z: 1}, {K: "TOuter", N: 1}, {K: "TMap", F1: Fn1{1, 1}, E1: &Texp{K: "TX"}}}, E1: &Texp{K: "TOuter", N: 1}},
+		{K: "TMap2", F2: Fn2{1, 2, 0}, E1: &Texp{K: "TX"}, E2: &Texp{K: "TOuter", N: 2}},
+	}
+	prefix = append(prefix, Op{K: "NewBindMemo", Cases: cases, A: 0}, Op{K: "Observe", A: 4}) // n3 lhs-change, n4 main, o5
+	var out [][]Op
+	var rec func(seq []int)
+	emit := func(seq []int, extraAt int, extra Op) {
+		h := append([]Op(nil), prefix...)
+		for i, k := range seq {
+			if i == extraAt {
+				h = append(h, extra)
+			}
+			h = append(h, Op{K: "SetVar", A: 0, V: k}, Op{K: "Stabilize"})
+		}
+		h = append(h, Op{K: "Unobserve", A: 5}, Op{K: "Stabilize"})
+		out = append(out, h)
+	}
+	rec = func(seq []int) {
+		if len(seq) > 0 {
+			emit(seq, -1, Op{})
+			sampled := len(seq) > 5
+			for pos := 0; pos < len(seq); pos++ {
+				if sampled && !r.Chance(1, 6) {
+					continue
+				}
+				emit(seq, pos, Op{K: "SetVar", A: 1, V: (pos + len(seq)) % 7})
+				if pos%2 == 0 {
+					emit(seq, pos, Op{K: "PurgeMemo", A: 4, V: seq[pos]})
+				} else {
+					emit(seq, pos, Op{K: "ClearMemo", A: 4})
+				}
+			}
+		}
+		if len(seq) == maxLen {
+			return
+		}
+		for k := 0; k < 4; k++ {
+			rec(append(seq[:len(seq):len(seq)], k))
+		}
+	}
+	rec(nil)
+	return out
 }
